@@ -1,0 +1,20 @@
+//go:build verif
+
+package ugo
+
+// Synchronisation points for the verification harness in /verif (build tag verif only).
+
+// VerifSyncHook, when set, is called at the named points of the abort protocol with the VM
+// concerned. The harness uses it to force interleavings of Abort with Run and Invoke.
+var VerifSyncHook func(point string, vm *VM)
+
+func verifSync(point string, vm *VM) {
+	if h := VerifSyncHook; h != nil {
+		h(point, vm)
+	}
+}
+
+// VerifIsChild reports whether vm is a child VM of an Invoker.
+func (vm *VM) VerifIsChild() bool {
+	return vm.pool.root != nil && vm.pool.root != vm
+}
